@@ -28,7 +28,7 @@ META = {
     "design_ref": "6 C10",
 }
 
-THEOREMS = [
+THEOREMS_WRAP = [
     "C10_tables",
     "C10_width",
     "C10_width_string",
@@ -42,6 +42,17 @@ THEOREMS = [
     "C10_noblank_data",
     "C10_fits_unchanged",
 ]
+
+# lean/MontePyVerif/Props/C10Roundtrip.lean: the wrapped card read back by Spec/File.lean (composes with C01_blocks)
+THEOREMS_CARD = [
+    "C10_words_file",
+    "C10_start",
+    "C10_noblank",
+    "C10_roundtrip_card",
+    "C10_roundtrip",
+    "C10_roundtrip_refuted",
+]
+THEOREMS = THEOREMS_WRAP + THEOREMS_CARD
 
 V80, V128, V5 = (6, 1, 0), (6, 2, 0), (5, 1, 60)
 VERSIONS = [V80, V128, V5]
@@ -288,8 +299,9 @@ def judgeable(s):
 
 def outside_oracle(src):
     """inputs on which MCNP's own reading is ill-defined, so that no wrapping can be judged against it:
-    an `&` that is a data word but not the last one of its line, and a line whose data before the `$` read alone
-    would be a comment line (`c$ text`)."""
+    an `&` that is a data word but not the last one of its line, a line whose data before the `$` read alone
+    would be a comment line (`c$ text`), and a line that holds only a `$` comment but does not start with five blanks
+    (neither a card nor a continuation).  The same classes are excluded by `LineOK` in Props/C10Roundtrip.lean."""
     for l in src:
         if spec.is_comment_line(l):
             continue
@@ -299,6 +311,8 @@ def outside_oracle(src):
             return "amp-inside"
         if c is not None and spec.is_comment_line(d):
             return "c-before-dollar"
+        if c is not None and not ws and not spec.is_continuation(l):
+            return "dollar-only-unindented"
     return None
 
 
@@ -683,6 +697,12 @@ CORPUS_STRINGS = [
     ("1 0 " + "h" * 77, V80),
 ]
 CORPUS_CELLS = [
+    # the continuation mark "&" and paddings that end in a line break (cleanup_last_line, merged from main)
+    {"kind": "cell", "text": "1 0 -1 &\n     imp:n=1", "edits": [["volume", 5.0]], "version": list(V128)},
+    {"kind": "cell", "text": "1 0 -1 imp:n=1 &\nvol=1", "edits": [["volume", 2.0]], "version": list(V80)},
+    {"kind": "cell", "text": "1 0 -1 &\nimp:n=1 &\nu=2", "edits": [["number", 99999999]], "version": list(V80)},
+    {"kind": "cell", "text": "1 0 -1 imp:n=1 &", "edits": [["volume", 2.0]], "version": list(V80)},
+    {"kind": "cell", "text": "1 0 -1\n", "edits": [["volume", 2.0]], "version": list(V80)},
     {"kind": "cell", "text": "1 0 -1 imp:n=1 $ geometry comment", "edits": [["volume", 5.0]], "version": list(V80)},
     {"kind": "cell", "text": "1 0 -1 vol=1 $ geometry comment\n     imp:n=1", "edits": [], "version": list(V80)},
     {"kind": "cell", "text": "1 0 -1 $ geometry comment\nc foo\n", "edits": [["volume", 5.0]], "version": list(V128)},
@@ -776,6 +796,9 @@ def run(chk):
     chk.assumptions = [
         "C10_words/C10_content_data assume no chunk (word or blank run) of the line's data is longer than limit-5 columns; "
         "beyond that break_long_words cuts the word (C10_content_refuted; known finding C10-F1)",
+        "C10_roundtrip/C10_start are proved for source lines of the class LineOK: no white space but blanks (no tab), no "
+        "chunk longer than a continuation line holds (limit-5 for data, limit-lead-2 for a C comment), no & inside the data, "
+        "the data before a $ not by itself a comment card (c$ ...), a line holding only a $ comment is indented",
         "the oracle judges printable-ASCII text with \\n line ends and tabs; other characters are only compared model vs code",
         "is_first_line=False (no caller in MontePy) is compared model vs code and judged for width/blank lines only",
         "title and message are truncated (not wrapped) by the code; only their width is judged",
@@ -789,10 +812,11 @@ def run(chk):
         "splitlines boundaries, textwrap._whitespace, TextWrapper defaults, the keyword arguments of the TextWrapper call)",
         "harness tools/props/c10.py and tools/vlib/c10spec.py (Python transcription of Spec/Text.lean, compared with it on every judged case)",
     ]
-    leanio.prove(chk, "MontePyVerif.Props.C10", THEOREMS, "MontePyVerif.C10")
+    leanio.prove(chk, "MontePyVerif.Props.C10", THEOREMS_WRAP, "MontePyVerif.C10")
+    leanio.prove(chk, "MontePyVerif.Props.C10Roundtrip", THEOREMS_CARD, "MontePyVerif.C10")
     drv = leanio.Driver(chk, "drv_c10")
     if chk.thorough:
-        leanio.leanchecker(chk, ["MontePyVerif.Props.C10"])
+        leanio.leanchecker(chk, ["MontePyVerif.Props.C10", "MontePyVerif.Props.C10Roundtrip"])
 
     # ---------------------------------------------------------------- U-wrapline: _wrap_line vs wrapLine
     rng = chk.rng("lines")
